@@ -19,7 +19,7 @@ import sympy as sp
 ARRAY_FIELDS = {"momentum", "vector", "array"}
 SIZE_FIELDS = {"n_events", "shape"}
 INT_FIELDS = {"angular_momentum", "l"}
-SHAPES = ["symbol", "number", "compound", "nested"]
+SHAPES = ["symbol", "number", "compound", "nested", "kinematic"]
 
 
 def discover_classes() -> dict[str, type]:
@@ -76,6 +76,12 @@ class Pool:
             return [sp.Rational(7, 5), sp.Float(1.3), sp.Integer(2), sp.Rational(11, 4), sp.Float(0.8)][k % 5]
         if shape == "compound":
             return s ** 2 + syms[(k + 1) % 5] * sp.Rational(3, 2)
+        if shape == "kinematic":
+            # scalar built from four-momentum arrays (how dynamics classes are fed in a real model): the only
+            # symbols inside are array symbols
+            return [self.L.InvariantMass(self.ArraySum(self.p, self.q)) ** 2,
+                    self.L.Energy(self.p) + self.L.InvariantMass(self.q),
+                    self.L.InvariantMass(self.p)][k % 3]
         # nested unevaluated instance as argument
         return [self.D.BreakupMomentumSquared(s + 4, syms[(k + 1) % 5] / 4, syms[(k + 2) % 5] / 5),
                 self.Kallen(s + 3, syms[(k + 1) % 5] / 3, syms[(k + 2) % 5] / 4) + 9,
@@ -86,6 +92,8 @@ class Pool:
             return [self.p, self.q][k % 2]
         if shape == "compound":
             return self.ArraySum(self.p, self.q)
+        if shape == "kinematic":
+            shape = "nested"
         return [self.L.NegativeMomentum(self.p),
                 self.ArrayMultiplication(self.L.BoostMatrix(self.ArraySum(self.p, self.q)), self.p)][k % 2]
 
@@ -135,7 +143,7 @@ def generate_instances(classes: dict[str, type], pool: Pool) -> list[tuple[str, 
                     out.append((key, f"{shape}/{variant}", exc))
                     continue
                 out.append((key, f"{shape}/{variant}", inst))
-                if extras and variant == 0 and shape in ("symbol", "nested"):
+                if extras and variant == 0 and shape in ("symbol", "nested", "kinematic"):
                     # full cross product of the non-SymPy attribute values (default / non-default in every combination,
                     # passed explicitly and left out)
                     choices = []
